@@ -7,7 +7,7 @@ import FlVerif.Lemmas.CodeRule
 For every expression tree `Py.Load.Expression` (what the translated `Antecedent.load` builds), with `node = None` (the
 tree of `self.expression`; `RuntimeError` when nothing is loaded) or a node.  The recursion bound is never exhausted. -/
 
-namespace CodeW5Z
+namespace CodeW5ZR
 open Lang Op Op.AntecedentText Gen.Code Py.Load Py.W5Z
 
 /-! ## `Proposition.__str__` -/
@@ -252,4 +252,4 @@ theorem code_antecedentPostfix (expression node : Expression) :
   · simp only [hn, if_false]
     exact code_postfixRec expression _ node {} hn (by omega)
 
-end CodeW5Z
+end CodeW5ZR
